@@ -1,7 +1,11 @@
 #!/bin/sh
 # Runs the repository's pinned suite (guard off) and checks that every test in BASELINE.stable_pass passes.
 cd "${REPO_DIR:-/repo}" || exit 2
-GOFLAGS=-mod=mod GOPROXY=off go test -json -vet=off -count=1 -timeout 25m ./... > /dev/shm/baseline.json 2>/dev/shm/baseline.err
+# the suite binds fixed TCP ports (8080, 8081, 17000...): run it in a private network namespace when possible, so that
+# other suites running on this machine at the same time cannot collide with it
+NS=""
+if unshare -n true 2>/dev/null; then NS="unshare -n"; fi
+$NS sh -c 'ip link set lo up 2>/dev/null; GOFLAGS=-mod=mod GOPROXY=off go test -json -vet=off -count=1 -timeout 25m ./...' > /dev/shm/baseline.json 2>/dev/shm/baseline.err
 python3 - <<'PY'
 import json,sys
 b=json.load(open('/root/.vp/BASELINE.json'))
